@@ -13,7 +13,7 @@ LEVEL = "exploration"
 RULE = (
     "case = arbitrary well-typed SourceMap (4 tables; disjoint direct/macro offsets; return addresses >= 1 or null; "
     "call site present or null; names/paths incl. non-ASCII) + injective old->new offset mapping that may drop ops and "
-    "need not be monotone; a second stratum takes maps produced by the compiler/decompilers for generated programs. "
+    "need not be monotone, given as a dict filled in a drawn key order; a second stratum takes maps produced by the compiler/decompilers for generated programs. "
     "Non-trivial = map has >= 1 macro entry with a return address AND the mapping drops >= 1 op; distinct by content hash."
 )
 ASSUMPTIONS = [
@@ -55,7 +55,11 @@ def smap_case(draw):
     news = draw(st.lists(st.integers(0, 200), min_size=len(keep), max_size=len(keep), unique=True))
     if draw(st.booleans()):
         news = sorted(news)
-    return {"map": direct, "mmap": macro, "pos": pos, "mpos": mpos, "remap": [[o, n_] for o, n_ in zip(keep, news)]}
+    pairs = [[o, n_] for o, n_ in zip(keep, news)]
+    # the mapping is a dict: the order in which the caller filled it is part of the input (drawn)
+    if pairs and draw(st.booleans()):
+        pairs = list(draw(st.permutations(pairs)))
+    return {"map": direct, "mmap": macro, "pos": pos, "mpos": mpos, "remap": pairs}
 
 
 @st.composite
@@ -65,7 +69,8 @@ def compiled_case(draw):
 
     prog = draw(st.one_of(gen_macro.macro_programs(single_file=True, max_stmts=25), gen_prog.programs(max_stmts=20)))
     return {"prog": prog, "keep": draw(st.lists(st.integers(0, 9), min_size=1, max_size=20)),
-            "news": draw(st.lists(st.integers(0, 400), min_size=1, max_size=30)), "sorted": draw(st.booleans())}
+            "news": draw(st.lists(st.integers(0, 400), min_size=1, max_size=30)), "sorted": draw(st.booleans()),
+            "fill_order": draw(st.one_of(st.just([]), st.lists(st.integers(0, 1000), min_size=2, max_size=12)))}
 
 
 def strategy(tier):
@@ -94,12 +99,16 @@ def compiled_to_case(case, stt):
         news.append(n)
     if case["sorted"]:
         news = sorted(news)
+    pairs = [[o, n] for o, n in zip(keep, news)]
+    fo = case.get("fill_order") or []
+    if fo:
+        pairs = [p for _, p in sorted(enumerate(pairs), key=lambda t: (fo[t[0] % len(fo)], t[0]))]
     return {
         "map": [[o, v[0], v[1]] for o, v in direct.items()],
         "mmap": [[o, v[0], v[1], v[2], v[3], list(v[4]) if v[4] is not None else None, v[5], v[6]] for o, v in macros.items()],
         "pos": [list(x) for x in pm],
         "mpos": [[f, n, list(x)] for f, n, x in pmm],
-        "remap": [[o, n] for o, n in zip(keep, news)],
+        "remap": pairs,
     }
 
 
@@ -179,8 +188,11 @@ def evaluate(case, stt):
     stt.count("has_macro_entries" if case["mmap"] else "no_macro_entries")
     if dropped:
         stt.count("drops_op")
-    if [n for _, n in case["remap"]] != sorted(n for _, n in case["remap"]):
+    by_key = sorted(case["remap"])
+    if [n for _, n in by_key] != sorted(n for _, n in by_key):
         stt.count("non_monotone")
+    if case["remap"] != by_key:
+        stt.count("mapping_filled_in_non_ascending_key_order")
     if any(e[6] is not None and e[6] not in remap for e in case["mmap"]):
         stt.count("return_addr_dropped")
     if has_ret and dropped:
